@@ -39,6 +39,8 @@ QuickPool == Thin(P11, 3, 1) \cup Thin(P21, 8, 5) \cup Thin(P22, 128, 17)
 MoreRefs == P11 \cup Thin(P21, 4, 1) \cup Thin(P22, 32, 9) \cup Thin(P111, 16, 3) \cup Thin(P211, 512, 77)
 MorePool == P11 \cup Thin(P12, 8, 5) \cup Thin(P22, 64, 17) \cup Thin(P111, 32, 11)
 
+MidPool == QuickPool \cup Thin(P111, 32, 11)
+
 Half == <<1, 2>>
 Quarter == <<1, 4>>
 =============================================================================
